@@ -46,11 +46,12 @@ Theorem C15_sink_survives_own_drop : forall (g : tgraph) (s : nat), reachable g 
 Proof. exact (@sink_survives_own_drop). Qed.
 Print Assumptions C15_sink_survives_own_drop.
 
-Theorem C15_collect_dead : forall (g : tgraph) (n : nat), TShape g -> t_held (tget g n) = false -> t_reg (tget g n) = false -> t_downs (tget g n) = [] -> t_alive (tget (collect g) n) = false.
+(* (since combine_latest(emit_on=...) nodes are modelled: a stream named by the emit_on of a live node is referenced by it) *)
+Theorem C15_collect_dead : forall (g : tgraph) (n : nat), TShape g -> t_held (tget g n) = false -> t_reg (tget g n) = false -> t_downs (tget g n) = [] -> (forall j t : nat, alive g j -> tk (tget g j) = TCombineOn t -> t <> n) -> t_alive (tget (collect g) n) = false.
 Proof. exact (@collect_dead). Qed.
 Print Assumptions C15_collect_dead.
 
-Theorem C15_destroyed_and_dropped_dies : forall (g : tgraph) (n : nat), TInv0 g -> wf_op g (ODestroy n) -> t_downs (tget g n) = [] -> wf_op (step_g g (ODestroy n)) (ODrop n) /\ t_alive (tget (step_g (step_g g (ODestroy n)) (ODrop n)) n) = false.
+Theorem C15_destroyed_and_dropped_dies : forall (g : tgraph) (n : nat), TInv0 g -> wf_op g (ODestroy n) -> t_downs (tget g n) = [] -> (forall j t : nat, tk (tget g j) = TCombineOn t -> t <> n) -> wf_op (step_g g (ODestroy n)) (ODrop n) /\ t_alive (tget (step_g (step_g g (ODestroy n)) (ODrop n)) n) = false.
 Proof. exact (@destroyed_and_dropped_dies). Qed.
 Print Assumptions C15_destroyed_and_dropped_dies.
 
@@ -117,4 +118,19 @@ Print Assumptions C15_reentrant_nonvacuous.
 Example C15_reentrant_sibling_nonvacuous : let g := run_ops [] (firstn 9 c15r_ops) in reachable g /\ wf_op g (ORemit 0 (VInt 2%Z) 2 (EDisconnect 1 3)) /\ exists g' log, tstep g (ORemit 0 (VInt 2%Z) 2 (EDisconnect 1 3)) = (g', ROk, log) /\ tk (tget g 1) = TPipe /\ In 4 (t_downs (tget g 1)) /\ t_alive (tget g' 1) = true /\ In 4 (t_downs (tget g' 1)) /\ cnt_edge 1 4 log = 1 /\ cnt_to 1 log = 1 /\ In 3 (t_downs (tget g 1)) /\ ~ In 3 (t_downs (tget g' 1)) /\ cnt_edge 1 3 log = 1.
 Proof. exact c15_reentrant_sibling_nonvacuous. Qed.
 Print Assumptions C15_reentrant_sibling_nonvacuous.
+
+(* ---- combine_latest with an explicit emit_on (TCombineOn t: emit_on names the stream t, given as a stream or by
+        position at construction) ---- *)
+
+Theorem C15_emit_on_only_when_triggered : forall (g : tgraph) (o : top) (g' : tgraph) (r : tres) (log : list tdeliv), reachable g -> wf_op g o -> tstep g o = (g', r, log) -> forall (z t c : nat) (v : val), tk (tget g z) = TCombineOn t -> In (z, c, v) log -> (exists x : val, o = OEmit z x) \/ (exists (x : val) (t' : nat) (e : tedit), o = ORemit z x t' e) \/ (exists w : val, In (t, z, w) log).
+Proof. exact (@emit_on_only_when_triggered). Qed.
+Print Assumptions C15_emit_on_only_when_triggered.
+
+Theorem C15_combine_on_aligned : forall g : tgraph, reachable g -> forall i t : nat, t_alive (tget g i) = true -> tk (tget g i) = TCombineOn t -> length (t_last (tget g i)) = length (t_ups (tget g i)) /\ t_alive (tget g t) = true.
+Proof. exact (@combine_on_aligned). Qed.
+Print Assumptions C15_combine_on_aligned.
+
+Example C15_emit_on_nonvacuous : legal [] c15on_ops /\ map (fun o => (to_raised o, to_deliv o)) (skipn 5 (trun [] c15on_ops)) = [ (false, [(1, 3, VInt 10%Z)]); (false, [(0, 3, VInt 1%Z); (3, 4, VTup [VInt 1%Z; VInt 10%Z])]); (false, [(1, 3, VInt 20%Z)]); (false, []); (false, [(0, 3, VInt 2%Z)]); (false, [(2, 3, VInt 7%Z)]); (false, [(0, 3, VInt 3%Z); (3, 4, VTup [VInt 3%Z; VInt 20%Z; VInt 7%Z])]); (false, []); (false, [(0, 3, VInt 4%Z); (3, 4, VTup [VInt 4%Z; VInt 7%Z])]); (false, []); (false, [(2, 3, VInt 8%Z)]); (false, []); (false, []) ] /\ links_of (run_ops [] c15on_ops) = [ (true, [], []); (false, [], []); (true, [], [3]); (true, [2], [4]); (true, [3], []) ].
+Proof. exact c15_emit_on_nonvacuous. Qed.
+Print Assumptions C15_emit_on_nonvacuous.
 
